@@ -1205,6 +1205,12 @@ def stream_live(I, R, r, n_hist):
                 fails.append('%r was refused but changed what getSpecific returns' % cmd)
             if res == 'done' and w is not None:
                 _check_locality(fails, w, before, after, cmd)
+            if res == 'done' and ' reset channel ' in cmd and ' * ' not in cmd and after[(net, c)] != after[(net, None)]:
+                fails.append('after %r the channel value %s still differs from the network value %s' % (cmd, after[(net, c)], after[(net, None)]))
+            if res == 'done' and ' reset channel ' in cmd and ' * ' in cmd and after[(None, c)] != after[(None, None)]:
+                fails.append('after %r the channel value %s still differs from the general value %s' % (cmd, after[(None, c)], after[(None, None)]))
+            if res == 'done' and ' reset network ' in cmd and after[(net, None)] != after[(None, None)]:
+                fails.append('after %r the network value %s still differs from the general value %s' % (cmd, after[(net, None)], after[(None, None)]))
             lines.append('t_dump'); impl.append(dump())
         cse = Case({'op': 'live', 'class': k, 'default': default, 'commands': ops}, impl='\n'.join(impl), oracle_ok=not fails,
                    oracle_msg='; '.join(fails[:3]), kind='live', tags=sorted(tags))
@@ -1383,6 +1389,27 @@ def replay(ctx, path):
                 res, text = T.save_load(); res = '%s file=%r' % (res, file_value_lines(text))
                 if T.node is None: print(o, '->', res); break
             print(o, '->', res, '\n    ', show(), '\n     set values:', T.dump())
+    elif op == 'live':
+        b = live_bot(); conf = b.conf; grp = conf.supybot.plugins.Config
+        try: grp.unregister('vtvar')
+        except Exception: pass
+        node = conf.registerChannelValue(grp, 'vtvar', I.classes[inp['class']](inp['default'], 'help'))
+        for cmd in inp['commands']:
+            out = bot.feed(b, 'own!u@h', b.irc.nick, cmd)
+            print(cmd, '->', [m.args[-1] for m in out])
+            print('    ', {('%s/%s' % (n, c)): node.getSpecific(network=n, channel=c)() for n in (None, b.irc.network) for c in (None, '#x', '#y')})
+    elif op == 'oracle_only':
+        OC = dict((nm, (mk, how)) for nm, mk, _, how in oracle_classes(I))
+        mk, how = OC[inp['class']]
+        reg = I.registry; I.reset_cache()
+        root = reg.Group(); root.setName('vt'); node = mk(); root.register('v', node)
+        (node.set if inp.get('how') == 'text' else node.setValue)(inp['value'])
+        reg.close(root, I.fn); print('now: file', file_value_lines(open(I.fn, encoding='utf-8').read()))
+        try:
+            reg.open_registry(I.fn, clear=True); root2 = reg.Group(); root2.setName('vt'); n2 = mk(); root2.register('v', n2)
+            print('now: before %r, after %r' % (observe(node), observe(n2)))
+        except Exception as e:
+            print('now: reload raises %r' % (e,))
     else:
         print('(no specific replay for this operation; the input above is self-contained)')
     return 0
